@@ -25,7 +25,7 @@ def zero_cases(rep, cfg, path, tag):
     b = cfg.prog.bodies[path]
     n, d = [mk("param", p.get("name")) for p in b["params"][:2]]
     z = felem("fq", 0)
-    flows = out.flows
+    flows = C.expand_flows(out.flows, deep=True)
     key = "ZERO/%s/%s" % (cfg.name, tag)
     ok1 = len(flows) >= 1 and len(flows[0][0]) == 1 and flows[0][0][0] in (Tm.eq(n, z), Tm.eq(z, n)) and flows[0][1] in (mk("tuple", TRUE, n), mk("tuple", TRUE, z))
     rep.ob(key + ":num=0", ok1, "first case must be `num == 0 -> (true, 0)`; got %s" % (
@@ -285,13 +285,14 @@ def min_rules(rep, cfg):
     x = mk("mul", n, mk("inv", d))
     zc = cfg.prog.consts.get("min_curve::constants::ZETA")
     zeta = K.felt(zc["value"]["val"], "fq")[1]
-    flows = C.expand_flows(out.flows)
-    if len(flows) == 3 and flows[2][1].op == "tuple" and len(flows[2][1].args) == 2 and flows[2][1].args[1].op == "ite" \
-            and flows[2][1].args[1].args[0] is flows[2][1].args[0]:
-        # `if c {(true, a)} else {(false, b)}` merged component-wise: (c, ite(c, a, b))
+    flows = C.expand_flows(out.flows, deep=True)
+    if len(flows) == 3 and flows[2][1].op == "tuple" and len(flows[2][1].args) == 2 and flows[2][1].args[0].op in ("eq", "not"):
+        # `(c, f(c ? a : b))`: the flag is the test itself - split on it
         pc, v = flows[2]
         c_ = v.args[0]
-        flows = flows[:2] + [(pc + (c_,), mk("tuple", TRUE, v.args[1].args[1])), (pc + (Tm.not_(c_),), mk("tuple", FALSE, v.args[1].args[2]))]
+        if c_.op == "not":
+            c_ = c_.args[0]
+        flows = flows[:2] + [(pc + (c_,), Tm.assume(v, c_, True)), (pc + (Tm.not_(c_),), Tm.assume(v, c_, False))]
     ok = False
     why = ""
     if len(flows) == 4:
